@@ -40,22 +40,33 @@ def label(repo: Repo) -> List[Ob]:
     want = {k: _fold_list(ast.parse(v, mode="eval").body) for k, v in LABEL_VECTORS.items()}
     ex = repo.func("Polarization.expand")
     n = 0
+    arms: Dict[str, list] = {}
     for m in [x for x in walk_no_nested(ex.node) if isinstance(x, ast.Match)]:
         for c in m.cases:
             if isinstance(c.pattern, ast.MatchValue):
                 lab = (dotted(c.pattern.value) or "").split(".")[-1]
-                if lab in want:
-                    n += 1
-                    vec = None
-                    for s in c.body:
-                        if isinstance(s, ast.Assign):
-                            vec = _fold_list(s.value)
-                    if vec is None:
-                        obs.append(skip("LABEL", ex, f"expand:{lab}", P, c.body[0], "vector literal not folded"))
-                    elif vec == want[lab]:
-                        obs.append(ok("LABEL", ex, f"expand:{lab}", P, c.body[0], f"|{lab}> expands to {LABEL_VECTORS[lab]}"))
-                    else:
-                        obs.append(bad("LABEL", ex, f"expand:{lab}", P, c.body[0], f"label {lab} expands to {vec!r:.80}, not to {LABEL_VECTORS[lab]}"))
+                if lab in want and "PolarizationLabel" in (dotted(c.pattern.value) or ""):
+                    arms.setdefault(lab, c.body)
+    # if/elif form: `if <state> == PolarizationLabel.H:` / `is`
+    for i_ in [x for x in walk_no_nested(ex.node) if isinstance(x, ast.If)]:
+        t = i_.test
+        if isinstance(t, ast.Compare) and len(t.ops) == 1 and isinstance(t.ops[0], (ast.Eq, ast.Is)):
+            for side in (t.left, t.comparators[0]):
+                d = dotted(side) or ""
+                if "PolarizationLabel." in d and d.split(".")[-1] in want:
+                    arms.setdefault(d.split(".")[-1], i_.body)
+    for lab, body in arms.items():
+        n += 1
+        vec = None
+        for s_ in body:
+            if isinstance(s_, ast.Assign):
+                vec = _fold_list(s_.value)
+        if vec is None:
+            obs.append(skip("LABEL", ex, f"expand:{lab}", P, body[0], "vector literal not folded"))
+        elif vec == want[lab]:
+            obs.append(ok("LABEL", ex, f"expand:{lab}", P, body[0], f"|{lab}> expands to {LABEL_VECTORS[lab]}"))
+        else:
+            obs.append(bad("LABEL", ex, f"expand:{lab}", P, body[0], f"label {lab} expands to {vec!r:.80}, not to {LABEL_VECTORS[lab]}"))
     table_name = None
     if n < 4:
         # label -> amplitudes kept in a module-level table {PolarizationLabel.X: [..] | lambda: [..]}
@@ -125,6 +136,22 @@ def label(repo: Repo) -> List[Ob]:
                 good = a == exp_a and (b is None or b == exp_b)
                 (obs.append(ok("LABEL", fi, f"outcome-label#{j}", ("C05", "C07"), i, "outcome 0 -> H, 1 -> V")) if good else
                  obs.append(bad("LABEL", fi, f"outcome-label#{j}", ("C05", "C07"), i, f"outcome {v} is stored as label {a} (else {b}): a non-destructively measured polarization is left in the *other* basis state")))
+        # table form:  X.state = TABLE[<outcome>]  with TABLE = {0: PolarizationLabel.H, 1: PolarizationLabel.V} (module level or local)
+        tables = {}
+        for st in list(fi.module.tree.body) + [x for x in walk_no_nested(fi.node) if isinstance(x, (ast.Assign, ast.AnnAssign))]:
+            tg = st.targets[0] if isinstance(st, ast.Assign) and len(st.targets) == 1 else (st.target if isinstance(st, ast.AnnAssign) else None)
+            v = getattr(st, "value", None)
+            if isinstance(tg, ast.Name) and isinstance(v, ast.Dict) and v.keys and all(isinstance(k_, ast.Constant) and isinstance(k_.value, int) for k_ in v.keys) \
+                    and all("PolarizationLabel" in src(x) for x in v.values):
+                tables[tg.id] = {k_.value: src(x).split(".")[-1] for k_, x in zip(v.keys, v.values)}
+        for a_ in [x for x in walk_no_nested(fi.node) if isinstance(x, ast.Assign)]:
+            if src(a_.targets[0]).endswith(".state") and isinstance(a_.value, ast.Subscript) and isinstance(a_.value.value, ast.Name) and a_.value.value.id in tables:
+                j += 1
+                sites += 1
+                tb = tables[a_.value.value.id]
+                good = tb.get(0) == "H" and tb.get(1) == "V"
+                (obs.append(ok("LABEL", fi, f"outcome-label#{j}", ("C05", "C07"), a_, "outcome 0 -> H, 1 -> V (label table)")) if good else
+                 obs.append(bad("LABEL", fi, f"outcome-label#{j}", ("C05", "C07"), a_, f"the outcome->label table is {tb}: a non-destructively measured polarization is left in the *other* basis state")))
     if sites < 3:
         raise AnalysisError(f"LABEL: {sites} outcome->label sites (floor 3)")
     return obs
@@ -326,11 +353,28 @@ def deleg_order(repo: Repo) -> List[Ob]:
     return obs
 
 
+def _sample_space_ok(a: ast.AST) -> Optional[bool]:
+    if call_np(a) == "arange" and len(a.args) == 1 and not a.keywords:
+        return True
+    if call_np(a) == "arange":
+        return False
+    if call_np(a) == "array" and a.args:
+        ti = src(a.args[0]).replace(" ", "")
+        if ti.startswith("list(range(") and "," not in ti[len("list(range("):]:
+            return True
+        if ti == "[0,1]" or ti.startswith("len("):
+            return True
+        if ti.startswith("list(range(") or ti.startswith("["):
+            return False
+    return None
+
+
 @rule("OUTCOME-SPACE")
 def outcome_space(repo: Repo) -> List[Ob]:
     """the sample space handed to the sampler is 0..n-1 with n the length of the probability vector"""
     obs: List[Ob] = []
     n = 0
+    cfgs: Dict[str, CFG] = {}
     for fi in repo.scan_functions():
         if not fi.module.name.startswith("photon_weave.state"):
             continue
@@ -345,8 +389,26 @@ def outcome_space(repo: Repo) -> List[Ob]:
             if a is None:
                 obs.append(skip("OUTCOME-SPACE", fi, key, props, c, "no sample-space argument"))
                 continue
+            alts = [a]
             if isinstance(a, ast.Name):
-                a = single_defs(fi.node).get(a.id, a)       # a named sample space: read its (only) definition
+                # a named sample space: judge every definition that reaches the draw
+                ocfg = cfgs.setdefault(fi.qualname, CFG(fi.node))
+                at = ocfg.node_containing(c)
+                defs_ = [d for d in (ocfg.reaching_defs(at, a.id) if at is not None else []) if d is not ocfg.entry and isinstance(d.ast, ast.Assign)]
+                if defs_:
+                    alts = [d.ast.value for d in defs_]
+            verdicts = []
+            for a in alts:
+                verdicts.append(_sample_space_ok(a))
+            t = src(alts[0]).replace(" ", "")
+            good = None if any(v is None for v in verdicts) else all(verdicts)
+            if good is None:
+                obs.append(skip("OUTCOME-SPACE", fi, key, props, c, f"sample space `{t[:40]}` not recognised"))
+            elif good:
+                obs.append(ok("OUTCOME-SPACE", fi, key, props, c, "outcomes are labelled 0..n-1"))
+            else:
+                obs.append(bad("OUTCOME-SPACE", fi, key, props, c, f"the sampler draws from `{t[:50]}`, which is not 0..n-1: reported outcomes are shifted/relabelled against the probability vector"))
+            continue
             t = src(a).replace(" ", "")
             good = None
             if call_np(a) == "arange" and len(a.args) == 1 and not a.keywords:
@@ -756,3 +818,70 @@ def label_exact(repo: Repo) -> List[Ob]:
 def is_abs_like(e: ast.AST) -> bool:
     from ..domains import is_abs
     return any(is_abs(x) is not None for x in [e] + list(ast.walk(e)))
+
+
+# which operation types renormalise is part of the public contract C07 quantifies over ("non-unitary operators through the
+# operation types that renormalise").  Frozen from the confirmed tree as *values* (not source text); the rule is monotone:
+# a type that renormalises must keep doing so – switching renormalisation *on* for another type is not reported.
+RENORMALISING = {
+    "FockOperationType": {"Creation", "Annihilation", "Squeeze"},
+    "PolarizationOperationType": {"I", "X", "Y", "Z", "H", "S", "T", "SX", "RX", "RY", "RZ", "U3", "Custom"},
+    "CustomStateOperationType": {"Expresion", "Custom"},
+    "CompositeOperationType": {"NonPolarizingBeamSplitter", "CXPolarization", "SwapPolarization", "CSwapPolarization", "CZPolarization", "Expression"},
+}
+
+
+@rule("RENORM-TABLE")
+def renorm_table(repo: Repo) -> List[Ob]:
+    from .dispatch import enum_members
+    obs: List[Ob] = []
+    n = 0
+    for en, want in RENORMALISING.items():
+        ci = repo.cls(en)
+        init = ci.methods.get("__init__")
+        pos = 0
+        if init is not None:
+            ps = [p for p in init.params if p != "self"]
+            if "renormalize" in ps:
+                pos = ps.index("renormalize")
+        members = enum_members(ci)
+        for mem in sorted(want):
+            tup = members.get(mem)
+            if tup is None:
+                continue          # a vanished member is DISPATCH's business
+            n += 1
+            v = tup.elts[pos] if pos < len(tup.elts) else None
+            good = isinstance(v, ast.Constant) and v.value is True
+            (obs.append(ok("RENORM-TABLE", ci.methods.get("__init__") or f"{en}", f"renormalises:{en}.{mem}", ("C07", "C01"), tup, "the type renormalises")) if good else
+             obs.append(bad("RENORM-TABLE", ci.methods.get("__init__") or f"{en}", f"renormalises:{en}.{mem}", ("C07", "C01"), tup,
+                            f"{en}.{mem} no longer renormalises (flag `{src(v) if v is not None else '?'}`): a non-unitary operator applied through this type leaves a state that is not unit norm / unit trace")))
+    if n < 20:
+        raise AnalysisError(f"RENORM-TABLE: {n} renormalising members found (floor 20)")
+    return obs
+
+
+@rule("PHASE-GLOBAL")
+def phase_global(repo: Repo) -> List[Ob]:
+    """the phase removed when a pure density matrix is contracted to a ket is one *global* phase: the factor multiplied into the
+    ket is built from a single entry (`angle(state[k])`), never from the whole vector (that would strip the relative phases)"""
+    obs: List[Ob] = []
+    P = ("C08", "C07")
+    n = 0
+    for q in ("Fock.contract", "BaseState.contract", "CustomState.contract", "Polarization.contract", "Envelope.contract", "ProductState.contract"):
+        fi = repo.func(q)
+        defs = single_defs(fi.node)
+        k = 0
+        for c in [x for x in walk_no_nested(fi.node) if isinstance(x, ast.Call) and call_np(x) == "angle" and x.args]:
+            k += 1
+            n += 1
+            a = c.args[0]
+            a = defs.get(a.id, a) if isinstance(a, ast.Name) else a
+            scalar = (isinstance(a, ast.Subscript) and not any(isinstance(y, ast.Slice) for y in ast.walk(a.slice))) \
+                or (isinstance(a, ast.Call) and method_call(a) and method_call(a)[1] == "item") \
+                or (isinstance(a, ast.Call) and call_np(a) in ("trace", "vdot", "sum"))
+            (obs.append(ok("PHASE-GLOBAL", fi, f"phase#{k}", P, c, "the removed phase is that of a single entry (a global phase)")) if scalar else
+             obs.append(bad("PHASE-GLOBAL", fi, f"phase#{k}", P, c,
+                            f"`{src(c)[:50]}` takes the phase of every component: multiplying the ket by e^(-i angle) strips the relative phases, the contracted vector is (|psi_0|, |psi_1|, …)")))
+    if n < 5:
+        raise AnalysisError(f"PHASE-GLOBAL: {n} phase normalisations found (floor 5)")
+    return obs
